@@ -5,7 +5,7 @@ CONSTANTS
   PruneHidesCommitError = FALSE
   MaxCrashes = 2
   Kinds = {"plain", "tx", "idupd"}
-  ForkKinds = {"plain", "tx", "idupd"}
+  ForkKinds = {"plain", "idupd"}
   ResetDepths = {1, 2, 3}
   ForkLens = {1, 2}
   FsKinds = {"plain", "idupd"}
